@@ -13,6 +13,7 @@ import NdcubeModel.Model.Crop
 import NdcubeModel.Model.SeqCrop
 import NdcubeModel.Model.SeqCoords
 import NdcubeModel.Model.Arith
+import NdcubeModel.Model.Reproject
 
 /-!
 # Line-protocol driver
@@ -780,6 +781,39 @@ def opArith (j : Json) : R Json := do
       | .error e => pure <| Json.mkObj [("err", .str e.name), ("at", natJson k)]
   go c0 0 ops
 
+/-! ## op `reproject` (C20) -/
+
+def opReproject (j : Json) : R Json := do
+  let algoS ← field j "algo" >>= asStr
+  let algo := match algoS with
+    | "interpolation" => Algo.interpolation | "adaptive" => Algo.adaptive | "exact" => Algo.exact | _ => Algo.unknown
+  let srcTypes ← field j "srcTypes" >>= asList asStr
+  let tgtTypes ← field j "tgtTypes" >>= asList asStr
+  let pd ← field j "tgtPixDim" >>= asNat
+  let wd ← field j "tgtWorldDim" >>= asNat
+  let cel ← field j "tgtCelestialOnly" >>= asBool
+  let optShape (k : String) : R (Option (List Nat)) := match optField j k with
+    | none | some .null => pure none
+    | some s => (asList asNat s).map some
+  let shapeOut ← optShape "shapeOut"
+  let tgtShape ← optShape "tgtArrayShape"
+  let r : ReprojReq := { algo := algo, srcTypes := srcTypes, tgtTypes := tgtTypes, tgtPixDim := pd, tgtWorldDim := wd,
+                         tgtCelestialOnly := cel, shapeOut := shapeOut, tgtArrayShape := tgtShape,
+                         unit := 1, metaId := 2, globalCoords := 3, tgtWcs := 4 }
+  let decision := match reprojectDecide r with
+    | .ok res => Json.mkObj [("shape", listJson natJson res.shape), ("carries", Json.arr #[natJson res.wcs, natJson res.unit, natJson res.metaId, natJson res.globalCoords])]
+    | .error e => errJson e
+  -- values on a grid shifted by whole pixels (source value = row-major index)
+  match optField j "shift" with
+  | none | some .null => pure <| Json.mkObj [("decision", decision)]
+  | some sh => do
+    let s ← asList asInt sh
+    let shape ← field j "srcShape" >>= asList asNat
+    let probes ← field j "probes" >>= asList (asList asNat)
+    let src : List Nat → Rat := fun ix => ((ravel shape ix : Nat) : Rat)
+    pure <| Json.mkObj [("decision", decision),
+      ("values", listJson (fun p => optJson ratJson (reprojShift shape src s p)) probes)]
+
 def dispatch (j : Json) : R Json := do
   let op ← field j "op" >>= asStr
   match op with
@@ -804,6 +838,7 @@ def dispatch (j : Json) : R Json := do
   | "seq_crop" => opSeqCrop j
   | "table_coord" => opTableCoord j
   | "arith" => opArith j
+  | "reproject" => opReproject j
   | "seq_coords" => opSeqCoords j
   | "seq_axis" => opSeqAxis j
   | _ => .error s!"unknown op {op}"
